@@ -267,7 +267,7 @@ def c04_core():
     quick_pick = {  # one ingredient per pair kind in the every-change tier; every combination in the thorough tier
         "ignore_then": "validate", "then_ignore": "filter", "ignored": "recover", "to": "try_map", "to_span": "or_not2",
         "to_slice": "choice_emit", "delimited_by": "validate", "padded_by": "or_not2", "repeated_unit": "filter",
-        "repeated_unit_fast": "or_not2", "separated_unit": "try_map",
+        "repeated_unit_fast": "validate", "separated_unit": "try_map",
     }
     for pn, (fa, fb) in pr.items():
         for iname, X in ing.items():
